@@ -111,6 +111,23 @@ Theorem C10_consistent_same_token : forall enc es calls s0 t0 c1 c2 tok1 tok2,
 Proof. exact consistent_same_token_events. Qed.
 Print Assumptions C10_consistent_same_token.
 
+(** sequential histories with maintenance in the middle: a finished consistent call, then ANY history
+    without removal - interleaved steps of any other calls, any number of enable/disable passes with
+    any filter (acra-tokens disable / enable) -, then a consistent call on the same (value, context,
+    type): if it returns a token at all, it is the same token.  While the record is disabled the
+    call is refused ([ex_disabled_refused_then_same_token] below), it never hands out a fresh token.
+    This is the rule the harness oracle applies ("inconsistent-token"); removal is the one exception
+    ([C10_consistency_needs_no_removal_refuted]). *)
+Theorem C10_consistent_across_maintenance : forall enc c1 c2 s0 t1 s1 tok1 es calls t' t2 s3 tok2,
+  c_mode c1 = Consistent -> c_mode c2 = Consistent ->
+  c_val c1 = c_val c2 -> c_ctx c1 = c_ctx c2 -> c_ty c1 = c_ty c2 ->
+  Forall no_remove es ->
+  tokenize enc c1 s0 t1 = (s1, Ok tok1) ->
+  tokenize enc c2 (fst (fst (run_events enc es ((s1, t'), init_procs calls)))) t2 = (s3, Ok tok2) ->
+  tok1 = tok2.
+Proof. exact consistent_across_maintenance. Qed.
+Print Assumptions C10_consistent_across_maintenance.
+
 (** the same for what [run_concurrent] computes (schedule, then every call run to completion) *)
 Theorem C10_consistent_same_token_concurrent : forall enc calls sched s0 t0 c1 c2 tok1 tok2,
   let x := run_concurrent_procs enc calls sched s0 t0 in
@@ -233,6 +250,34 @@ Example ex_detok_owner : deanonymize ex_store ex_ctx TInt32 [x0a; x0b; x0c; x0d]
 Proof. vm_compute. reflexivity. Qed.
 Example ex_detok_foreign : deanonymize ex_store ex_ctx2 TInt32 [x0a; x0b; x0c; x0d] = Ok [x0a; x0b; x0c; x0d].
 Proof. vm_compute. reflexivity. Qed.
+
+(** tokenize -> disable everything -> tokenize twice -> enable -> tokenize: the token is handed out once,
+    the calls made while the record is disabled are refused (both Saves of the value->token record
+    report "exists"), after enabling the same token comes back and detokenizes to the original *)
+Example ex_disabled_refused_then_same_token :
+  let T := [x0a; x0b; x0c; x0d] in
+  let '(s1, r1) := tokenize false ex_call [] [T] in
+  let s2 := visit (fun _ _ => ADisable) s1 in
+  let '(s3, r2) := tokenize false ex_call s2 [[x11; x12; x13; x14]; [x21; x22; x23; x24]] in
+  let '(s4, r3) := tokenize false ex_call s3 [[x31; x32; x33; x34]; [x41; x42; x43; x44]] in
+  let s5 := visit (fun _ dis => if dis then AEnable else AContinue) s4 in
+  let '(s6, r4) := tokenize false ex_call s5 [[x51; x52; x53; x54]] in
+  r1 = Ok T /\ r2 = Err E_EXISTS /\ r3 = Err E_EXISTS /\ r4 = Ok T /\
+  deanonymize s2 ex_ctx TInt32 T = Ok T /\ deanonymize s6 ex_ctx TInt32 T = Ok [x01; x00; x00; x00].
+Proof. vm_compute. repeat split; reflexivity. Qed.
+(** the premises of [C10_consistent_across_maintenance] are satisfiable with a disable/enable pair in between *)
+Example ex_across_maintenance_premises :
+  exists s1 s3 tok,
+    tokenize false ex_call [] [[x0a; x0b; x0c; x0d]] = (s1, Ok tok) /\
+    Forall no_remove [EvVisit (fun _ _ => ADisable); EvVisit (fun _ _ => AEnable)] /\
+    tokenize false ex_call
+      (fst (fst (run_events false [EvVisit (fun _ _ => ADisable); EvVisit (fun _ _ => AEnable)] ((s1, []), init_procs []))))
+      [[x11; x12; x13; x14]] = (s3, Ok tok).
+Proof.
+  eexists. eexists. eexists. split; [vm_compute; reflexivity| split].
+  - repeat constructor; cbn; intros; discriminate.
+  - vm_compute. reflexivity.
+Qed.
 
 (** removal is outside the consistency theorem for a reason: after removing the records the same
     value gets a different token *)
